@@ -438,11 +438,47 @@ class Machine(Interp):
         else:
             raise Unsupported("augmented assignment target")
 
+    def _locate_round(self, lst, idx):
+        """the single-item segment of `lst` and the round term that position idx denotes"""
+        c = ctx()
+        off = z3.IntVal(0)
+        for x in lst:
+            if isinstance(x, Seg):
+                if len(x.items) == 1:
+                    r = z3.simplify(zint(idx) - off)
+                    ok, _ = c.valid(z3.And(r >= 0, r < zint(x.length)))
+                    if ok:
+                        return x, r
+                off = off + zint(x.length) * len(x.items)
+            else:
+                off = off + 1
+        raise Unsupported("symbolic list position does not provably fall into one segment")
+
     def sym_list_get(self, lst, idx):
-        raise Unsupported("read-modify-write of a list element at a symbolic position")
+        seg, r = self._locate_round(lst, idx)
+        c = ctx()
+        if (id(lst), id(seg)) in getattr(c, "seg_updated", set()):
+            raise Unsupported("element read after a pointwise update in the same round")
+        return ops.seg_element(seg, r)
 
     def sym_list_set(self, lst, idx, v):
-        raise Unsupported("read-modify-write of a list element at a symbolic position")
+        """pointwise update of a segment at the position of the current generic round"""
+        c = ctx()
+        seg, r = self._locate_round(lst, idx)
+        if not c.generic or c.effects is None:
+            raise Unsupported("store at a symbolic list position outside a generic round")
+        cur, j = c.generic[-1]
+        ok1, _ = c.valid(r == j)
+        ok2, _ = c.valid(zint(seg.length) == zint(cur.length))
+        if not (ok1 and ok2):
+            # may become aligned once a loop-carried counter is recognised as affine
+            # (decided at the end of the round): record, and fail there if it persists
+            c.effects.append(("segupdate-unaligned", lst))
+            return
+        if not hasattr(c, "seg_updated"):
+            c.seg_updated = set()
+        c.seg_updated.add((id(lst), id(seg)))
+        c.effects.append(("segupdate", lst, seg, v, j))
 
     def inplace(self, op, old, r):
         if isinstance(old, list) and isinstance(op, ast.Add):
@@ -864,6 +900,12 @@ class Machine(Interp):
                 if contains_symbolic(new, 2) and _value_mentions(new, j):
                     raise Unsupported(f"loop at {key}: attribute {name} written with round-dependent value")
                 idem.append(e)
+            elif kind == "segupdate-unaligned":
+                raise Unsupported(f"loop at {key}: store at a symbolic list position that is not aligned with the round")
+            elif kind == "segupdate":
+                _, _, useg, newv, jcur = e
+                useg.items[0] = ops.subst_j(newv, jcur, useg.jvar) if not useg.jvar.eq(jcur) else newv
+                getattr(c, "seg_updated", set()).discard((id(obj), id(useg)))
             elif kind == "container" and e[2] in ("add", "update") and not contains_symbolic(e[3], 2):
                 # adding the same concrete elements every round is idempotent
                 idem.append(e)
